@@ -415,6 +415,118 @@ static void gzip_reader(void)
 						}
 }
 
+/* huge avail_in: a caller that has mapped a multi-GiB file hands the whole mapping over in one call (avail_in is a uint32_t, anything up
+ * to 2^32-1 is legal). The header readers and the inflate entry points must parse the header exactly as with a small buffer: same
+ * fields, same stop position. The region behind the header is a zero-page-backed MAP_NORESERVE mapping; only the header is written. */
+#include <sys/mman.h>
+static void huge_avail_in(void)
+{
+	static const uint64_t ains[] = { (1ull << 31) - 1, 1ull << 31, (1ull << 31) + 4096, (1ull << 32) - 1 };
+	static const uint8_t ex3[3] = { 7, 8, 9 };
+	size_t maplen = (1ull << 32) + (1 << 20);
+	uint8_t *map = mmap(NULL, maplen, PROT_READ | PROT_WRITE, MAP_PRIVATE | MAP_ANONYMOUS | MAP_NORESERVE, -1, 0);
+	if (map == MAP_FAILED) {
+		v_note("huge avail_in part skipped: cannot reserve 4 GiB of address space");
+		v_not_exhaustive("huge avail_in part skipped");
+		return;
+	}
+	char key[300];
+	static char nbuf[64], cbuf[64];
+	static uint8_t ebuf[16];
+	for (int hv = 0; hv < 4; hv++)
+		for (int ai = 0; ai < 4; ai++)
+			for (int nul = 0; nul < 2; nul++) {
+				struct rh_gzip rh = { hv & 1, 0x11223344, 2, 3, ex3, hv == 3 ? 3 : -1, hv >= 1 ? "file-name.txt" : NULL, hv >= 2 ? "a comment" : NULL, hv == 3 };
+				memset(map, 0, 4096);
+				size_t hl = rh_gzip_write(map, &rh);
+				map[hl] = 0x03; map[hl + 1] = 0x00; /* empty final fixed block, then zeros */
+				struct inflate_state *st = g_alloc(sizeof *st, G_END);
+				struct isal_gzip_header gh;
+				isal_inflate_init(st);
+				isal_gzip_header_init(&gh);
+				if (!nul) {
+					gh.name = nbuf; gh.name_buf_len = sizeof nbuf;
+					gh.comment = cbuf; gh.comment_buf_len = sizeof cbuf;
+					gh.extra = ebuf; gh.extra_buf_len = sizeof ebuf;
+				}
+				memset(nbuf, 0xCC, sizeof nbuf); memset(cbuf, 0xCC, sizeof cbuf);
+				st->next_in = map; st->avail_in = (uint32_t)ains[ai];
+				int r = -999;
+				snprintf(key, sizeof key, "isal_read_gzip_header huge avail_in=%llu header=%s buffers=%s", (unsigned long long)ains[ai], hv == 0 ? "plain" : hv == 1 ? "name" : hv == 2 ? "name+comment" : "extra+name+comment+hcrc",
+					 nul ? "NULL" : "given");
+				if (V_TRY()) {
+					r = isal_read_gzip_header(st, &gh);
+					V_END();
+				} else {
+					v_violation(key, "%s", v_fault_desc());
+					nfail++;
+					g_reset();
+					continue;
+				}
+				v_eval();
+				if (r != ISAL_DECOMP_OK || (size_t)(st->next_in - map) != hl || st->avail_in != (uint32_t)ains[ai] - hl) {
+					v_violation(key, "returned %d, consumed %zu of a %zu-byte header, avail_in %u (expected %llu)", r, (size_t)(st->next_in - map), hl, st->avail_in, (unsigned long long)(ains[ai] - hl));
+					nfail++;
+				} else if (!nul && ((rh.name && strcmp(nbuf, rh.name)) || (rh.comment && strcmp(cbuf, rh.comment)) || gh.time != rh.mtime || gh.os != 3)) {
+					v_violation(key, "fields differ from the header written");
+					nfail++;
+				}
+				/* the same member through the inflate entry points (header + empty block + trailer of an empty message) */
+				memset(map + hl + 2, 0, 8);
+				for (int api = 0; api < 2; api++) {
+					uint8_t ob[16];
+					isal_inflate_init(st);
+					st->crc_flag = ISAL_GZIP;
+					st->next_in = map; st->avail_in = (uint32_t)ains[ai]; st->next_out = ob; st->avail_out = sizeof ob;
+					int ri = -999;
+					if (V_TRY()) {
+						ri = api ? isal_inflate(st) : isal_inflate_stateless(st);
+						V_END();
+					} else {
+						v_violation(key, "%s: %s", api ? "isal_inflate" : "isal_inflate_stateless", v_fault_desc());
+						nfail++;
+						continue;
+					}
+					v_eval();
+					if (ri != ISAL_DECOMP_OK || st->block_state != ISAL_BLOCK_FINISH || (size_t)(st->next_in - map) != hl + 10 || st->total_out != 0) {
+						v_violation(key, "%s on the whole member: returned %d, state %d, consumed %zu (member is %zu bytes)", api ? "isal_inflate" : "isal_inflate_stateless", ri, st->block_state, (size_t)(st->next_in - map), hl + 10);
+						nfail++;
+					}
+				}
+				g_reset();
+				v_count("huge_avail_in_cases", 1);
+				v_nontrivial(v_mix(0x4a11 + hv, ai * 2 + nul));
+			}
+	/* zlib header reader */
+	for (int ai = 0; ai < 4; ai++)
+		for (int dict = 0; dict < 2; dict++) {
+			struct inflate_state *st = g_alloc(sizeof *st, G_END);
+			struct isal_zlib_header zh;
+			memset(map, 0, 64);
+			struct rh_zlib rz = { 7, 2, dict, 0x01020304 };
+			size_t hl = rh_zlib_write(map, &rz);
+			isal_inflate_init(st);
+			isal_zlib_header_init(&zh);
+			st->next_in = map; st->avail_in = (uint32_t)ains[ai];
+			int r = -999;
+			snprintf(key, sizeof key, "isal_read_zlib_header huge avail_in=%llu dict=%d", (unsigned long long)ains[ai], dict);
+			if (V_TRY()) {
+				r = isal_read_zlib_header(st, &zh);
+				V_END();
+				v_eval();
+				if (r != ISAL_DECOMP_OK || (size_t)(st->next_in - map) != hl || zh.info != 7 || zh.dict_flag != (uint32_t)dict || (dict && zh.dict_id != 0x01020304)) {
+					v_violation(key, "returned %d, consumed %zu of %zu, info %u dict_flag %u dict_id %08x", r, (size_t)(st->next_in - map), hl, zh.info, zh.dict_flag, zh.dict_id);
+					nfail++;
+				}
+			} else {
+				v_violation(key, "%s", v_fault_desc());
+				nfail++;
+			}
+			g_reset();
+		}
+	munmap(map, maplen);
+}
+
 /* long strings: FNAME / FCOMMENT longer than 64 KiB (RFC 1952 sets no limit), parsed in one call, with the input split at positions
  * deep inside each string, and with a too-small caller buffer that is grown and the parse resumed there. All internal offsets that
  * track the position inside a string must be wide enough; the recovered strings must be byte-identical. */
@@ -667,8 +779,10 @@ int main(int argc, char **argv)
 	if (!v_part || !strcmp(v_part, "reader")) {
 		gzip_reader();
 		long_strings();
-		if (v_shard == 0)
+		if (v_shard == 0) {
 			zlib_reader();
+			huge_avail_in();
+		}
 		arbitrary();
 	}
 	if (v_shard == 0) {
